@@ -22,7 +22,7 @@ Record Inv (s : st) : Prop := {
 Lemma Inv_init : Inv init.
 Proof. constructor; cbn; auto. split; [disc|auto]. Qed.
 
-Ltac fields := cbn [created reg tokens phase clients nconn queue sent got obs upd after_removed consumed negb andb] in *.
+Ltac fields := cbn [created reg tokens phase clients nconn queue sent got obs rxlive sres upd refused accepted_send set_rx after_removed consumed negb andb] in *.
 
 Ltac fin I G2 F :=
   constructor; fields; auto;
@@ -42,8 +42,9 @@ Proof.
     fin I G2 F; try (now rewrite Rc, Rp).
   - destruct (clients s) eqn:Ecl; [discriminate|]. injection H as <-. fin I G2 F.
   - destruct (clients s) eqn:Ecl; [discriminate|]. injection H as <-. fin I G2 F.
-  - destruct (clients s) eqn:Ecl; [discriminate|]. injection H as <-. fin I G2 F.
-  - destruct (phase s) eqn:Ep; try discriminate. destruct (reg s) eqn:Er; [|discriminate]. injection H as <-.
+  - destruct (clients s) eqn:Ecl; [discriminate|]. destruct (rxlive s); injection H as <-; fin I G2 F.
+  - destruct (phase s) eqn:Ep; try discriminate. destruct (reg s) eqn:Er; cbn [andb] in H; [|discriminate].
+    destruct (rxlive s); [|discriminate]. injection H as <-.
     symmetry in R. apply andb_true_iff in R. destruct R as [Rc _].
     fin I G2 F; try (now rewrite Rc).
   - destruct (phase s) eqn:Ep; try discriminate. destruct (tokens s) eqn:Et; [discriminate|]. injection H as <-. fin I G2 F.
@@ -52,8 +53,13 @@ Proof.
   - destruct (phase s) eqn:Ep; try discriminate. destruct (queue s) as [|x q] eqn:Eq.
     + destruct (Nat.eqb (senders s) 0); [|discriminate]. injection H as <-. fin I G2 F.
     + injection H as <-. fin I G2 F; try (split; [intros _; destruct (got s); disc|intros Hx; contradiction]).
-  - destruct (phase s) eqn:Ep; try discriminate. destruct (queue s) as [|x q] eqn:Eq; injection H as <-; fin I G2 F;
+  - destruct (phase s) eqn:Ep; try discriminate. destruct (rxlive s); cbn [negb] in H; [|discriminate].
+    destruct (queue s) as [|x q] eqn:Eq; injection H as <-; fin I G2 F;
     try (split; [intros _; destruct (got s); disc|intros Hx; contradiction]).
+  - destruct (phase s) eqn:Ep; try discriminate. destruct (created s && rxlive s); [|discriminate]. injection H as <-.
+    constructor; cbn [created reg tokens phase clients nconn queue sent got obs set_rx]; rewrite ?Ep; auto.
+  - destruct (phase s) eqn:Ep; try discriminate. destruct (rxlive s); [|discriminate]. injection H as <-.
+    constructor; cbn [created reg tokens phase clients nconn queue sent got obs set_rx]; rewrite ?Ep; auto.
 Qed.
 
 Lemma Inv_run : forall ls s s', Inv s -> run s ls = Some s' -> Inv s'.
@@ -93,6 +99,7 @@ Theorem isrv_disconnected_exact : forall ls s s', run init ls = Some s -> step s
      (o = ODisc <-> queue s = [] /\ clients s = 0) /\ (forall x, o = OMsg x <-> exists q, queue s = x :: q)).
 Proof.
   intros ls s s' H Hs. unfold step in Hs. destruct (phase s) eqn:Ep; try discriminate.
+  destruct (rxlive s); cbn [negb] in Hs; [|discriminate].
   pose proof (isrv_no_parked_sender _ _ H) as Hn. rewrite Ep in Hn. specialize (Hn eq_refl).
   destruct (queue s) as [|x q] eqn:Eq; injection Hs as <-; cbn [obs upd].
   - rewrite Hn. destruct (Nat.eqb_spec (clients s) 0) as [E|E].
@@ -121,3 +128,76 @@ Proof.
     rewrite Hs. cbn. eauto.
 Qed.
 
+
+(* ---- sends and the existence of the receiving end (C09) ---- *)
+(* every send is answered: Ok - and then the message is queued - exactly while the receiving end exists (inside the server object
+   before accept, in the hands of the program afterwards); after the server was dropped unaccepted, or the accepted receiver
+   dropped, every send fails and queues nothing.  The sender parked in the registry entry of a dropped server does not matter. *)
+Theorem isrv_send_result : forall s x s', step s (ISend x) = Some s' ->
+  sres s' = sres s ++ [rxlive s] /\ rxlive s' = rxlive s /\
+  (if rxlive s then queue s' = queue s ++ [x] else queue s' = queue s /\ sent s' = sent s).
+Proof.
+  intros s x s' H. unfold step in H. destruct (clients s); [discriminate|].
+  destruct (rxlive s) eqn:E; injection H as <-; cbn; rewrite ?E; auto.
+Qed.
+
+Definition rx_gone (ls : list label) : Prop := In IDropSrv ls \/ In IDropRx ls.
+
+Lemma rxlive_mono : forall s l s', step s l = Some s' -> created s = true -> rxlive s = false -> rxlive s' = false /\ created s' = true.
+Proof.
+  intros s l s' H Hc Hr. destruct l; unfold step in H; rewrite ?Hc, ?Hr in H; cbn [andb negb] in H;
+    repeat match type of H with
+           | (if ?c then _ else _) = _ => destruct c eqn:?
+           | match ?c with _ => _ end = _ => destruct c eqn:?
+           end; try discriminate; injection H as <-; cbn; auto.
+Qed.
+
+Theorem isrv_dropped_stays_dropped : forall ls s s', run s ls = Some s' -> created s = true -> rxlive s = false -> rxlive s' = false.
+Proof.
+  induction ls as [|l r IH]; intros s s' H Hc Hr; cbn [run] in H; [injection H as <-; exact Hr|].
+  destruct (step s l) as [s1|] eqn:Es; [|discriminate]. destruct (rxlive_mono _ _ _ Es Hc Hr) as [H1 H2]. eapply IH; eauto.
+Qed.
+
+(* after the drop, every later send of every client fails *)
+Theorem isrv_send_after_drop_fails : forall pre s l ls s1 s2 x s3, run init pre = Some s ->
+  (l = IDropSrv \/ l = IDropRx) -> step s l = Some s1 -> run s1 ls = Some s2 -> step s2 (ISend x) = Some s3 ->
+  sres s3 = sres s2 ++ [false] /\ queue s3 = queue s2.
+Proof.
+  intros pre s l ls s1 s2 x s3 Hpre Hl H1 H2 H3.
+  pose proof (reachable_inv _ _ Hpre) as [_ _ I _ _].
+  assert (Hc : created s1 = true /\ rxlive s1 = false).
+  { destruct Hl as [-> | ->]; unfold step in H1; destruct (phase s) eqn:Ep; try discriminate.
+    - destruct (created s) eqn:Ec; cbn [andb] in H1; [|discriminate]. destruct (rxlive s); [|discriminate]. injection H1 as <-. cbn. auto.
+    - destruct (rxlive s) eqn:Er; [|discriminate]. injection H1 as <-. cbn. split; [|reflexivity].
+      destruct (created s) eqn:Ec; [reflexivity|]. destruct (I eq_refl) as [Hp _]. discriminate Hp. }
+  destruct Hc as [Hc Hr]. pose proof (isrv_dropped_stays_dropped _ _ _ H2 Hc Hr) as Hd.
+  destruct (isrv_send_result _ _ _ H3) as (A & _ & B). rewrite Hd in *. destruct B as [B _]. auto.
+Qed.
+
+(* ... while a send to a server that exists and has not accepted yet succeeds and is queued for accept() *)
+Theorem isrv_send_before_accept_ok : forall pre s x, run init pre = Some s -> ~ In IDropSrv pre -> ~ In IDropRx pre -> 0 < clients s ->
+  exists s', step s (ISend x) = Some s' /\ sres s' = sres s ++ [true] /\ queue s' = queue s ++ [x].
+Proof.
+  intros pre s x H N1 N2 Hc.
+  assert (L : created s = true -> rxlive s = true).
+  { clear Hc. revert s H. induction pre as [|l r IH] using rev_ind; intros s H.
+    - injection H as <-. discriminate.
+    - assert (exists s0, run init r = Some s0 /\ step s0 l = Some s) as (s0 & H0 & Hs).
+      { clear -H. revert H. generalize init. induction r as [|a r IH]; intros i H; cbn [run app] in *.
+        - destruct (step i l) as [s1|] eqn:E; [|discriminate]. injection H as <-. eauto.
+        - destruct (step i a) as [s1|] eqn:E; [|discriminate]. destruct (IH _ H) as (s0 & A & B). eauto. }
+      assert (N1' : ~ In IDropSrv r) by (intro X; apply N1; apply in_app_iff; auto).
+      assert (N2' : ~ In IDropRx r) by (intro X; apply N2; apply in_app_iff; auto).
+      specialize (IH N1' N2' _ H0).
+      assert (Hl1 : l <> IDropSrv) by (intro; subst; apply N1; apply in_app_iff; cbn; auto).
+      assert (Hl2 : l <> IDropRx) by (intro; subst; apply N2; apply in_app_iff; cbn; auto).
+      destruct l; try contradiction; unfold step in Hs;
+        repeat match type of Hs with
+               | (if ?c then _ else _) = _ => destruct c eqn:?
+               | match ?c with _ => _ end = _ => destruct c eqn:?
+               end; try discriminate; injection Hs as <-; cbn; auto; try (intros Hx; specialize (IH Hx); congruence). }
+  pose proof (reachable_inv _ _ H) as [_ _ I _ _].
+  assert (Hcr : created s = true).
+  { destruct (created s) eqn:Ec; [reflexivity|]. destruct (I eq_refl) as (_ & Hcl & _). lia. }
+  specialize (L Hcr). unfold step. destruct (clients s) eqn:Ecl; [lia|]. rewrite L. eexists. split; [reflexivity|]. cbn. auto.
+Qed.
